@@ -137,6 +137,7 @@ func runC08(c *Ctx) {
 	c.Rule("C08.O5", "E4", "the ten CR/LF states: expected byte or a non-nil error return", 10)
 	c.Rule("C08.O6", "E4", "Parse defers a closure that recovers and unlocks; DataHandler and TLSDataHandler defer recover()", 3)
 	c.Rule("C08.O8", "E9", "the parser's transition relation (state case -> nextState target, read off Parse) equals the grammar's table: no state that examines a framing byte can be bypassed", 1)
+	c.Rule("C08.O9", "E7", "both CR exits of the header-value states record Transfer-Encoding / Trailer / Content-Length into the framing header set before OnHeader: a framing header with an empty value is still seen by the framing decision", 2)
 	c.Rule("C08.O7", "E4", "no processor callback between an error's detecting comparison and its return; stateClose short-circuits at entry", 2)
 
 	// ------------------------------------------------------------------ O1
@@ -349,6 +350,7 @@ func runC08(c *Ctx) {
 		cases := c.stateCases(parse)
 		consts := c.stateConsts()
 		c08Transitions(c, parse)
+		c08FramingRecorded(c, parse)
 		var missing []string
 		for name, k := range consts {
 			if _, ok := cases[k]; !ok {
@@ -830,4 +832,38 @@ func c08Transitions(c *Ctx, parse *ssa.Function) {
 		bad += fmt.Sprintf(" transition(s) of the grammar that Parse no longer makes: %v", missing)
 	}
 	c.Cond(bad == "", "C08.O8", fnKey(c.P, parse, "transition relation"), c.FnPos(parse), fmt.Sprintf("%d transitions, all in the grammar table", len(got)), strings.TrimSpace(bad))
+}
+
+// c08FramingRecorded: O9.  Every OnHeader delivery is preceded, in the same pass over the
+// byte, by the conditional p.header.Add(key, value) of the framing headers.
+func c08FramingRecorded(c *Ctx, parse *ssa.Function) {
+	fi := c.P.Info(parse)
+	var adds []ssa.Instruction
+	for _, cs := range c.P.CallsNamed(parse, "(net/http.Header).Add") {
+		if c.P.LoadedField(ir.Resolve(cs.Common.Args[0])) == "nbhttp.Parser.header" && cs.In.Parent() == parse {
+			adds = append(adds, cs.In)
+		}
+	}
+	n := 0
+	for _, cs := range c.P.CallsNamed(parse, "invoke:nbhttp.Processor.OnHeader") {
+		if cs.In.Parent() != parse {
+			continue
+		}
+		n++
+		key := fmt.Sprintf("%s: framing headers recorded before OnHeader#%d", c.P.FuncName(parse), n)
+		ok := false
+		for _, a := range adds {
+			// a reaches this OnHeader without going round the byte loop
+			vis, _ := fi.Reach([]ssa.Instruction{a}, func(in ssa.Instruction) bool {
+				return in != cs.In && c.isCallTo(in, "invoke:nbhttp.Processor.OnHeader", "(*nbhttp.Parser).nextState")
+			})
+			if vis[cs.In] {
+				ok = true
+			}
+		}
+		c.Cond(ok, "C08.O9", key, c.Pos(cs.In), "p.header.Add(key, value) for TE / Trailer / CL precedes the delivery", "the header delivered at "+c.Pos(cs.In)+" is not recorded into the framing header set first: a Transfer-Encoding, Trailer or Content-Length line that ends in this state (an empty value) is invisible to the framing decision, so 'Transfer-Encoding:' plus a Content-Length is framed by the length")
+	}
+	if n < 2 {
+		c.Unres("C08.O9", "OnHeader sites", fmt.Sprintf("found %d, expected the two header-value states", n))
+	}
 }
